@@ -45,6 +45,9 @@ def hex_blocks(w):
         ('read_nth_hex', 'hex.read_nth_hex h, p, idx'), ('read_nth_byte', 'hex.read_nth_byte by, p, idx'),
         ('write_nth_hex', 'hex.write_nth_hex p, idx, h'), ('write_nth_byte', 'hex.write_nth_byte p, idx, by'),
         ('ptr_flip', 'hex.ptr_flip p'), ('ptr_flip_dbit', 'hex.ptr_flip_dbit p'),
+        # ptr_flip flips the BIT its pointer addresses: here the pointer q holds the address of data bit 2 of the cell p points at (a bit
+        # address whose low hex is not zero - the `var+dbit` form of the repository's own programs)
+        ('ptr_flip_bit_address', 'hex.ptr_flip q'),
         ('ptr_wflip', 'hex.ptr_wflip p, 5'), ('ptr_wflip_2nd_word', 'hex.ptr_wflip_2nd_word p, 3*dw'),
     ]
     return B
@@ -161,6 +164,10 @@ def apply_model(name, S, w, K_):
         if not ok(t):
             return None
         c[t + 1] ^= 1
+    elif name == 'ptr_flip_bit_address':
+        if not ok(t) or S['q'] != S['p'] + w + w.bit_length() + 2:
+            return None
+        c[t + 1] ^= 4
     elif name == 'ptr_wflip':
         if not ok(t):
             return None
@@ -217,6 +224,92 @@ def mirror_problems(h, snap, w):
     return out
 
 
+def hex_step(h, w, name, call, S, shared, sieve, stats, family, what, extra_case=None):
+    """one execution of the pointer block `name` from the model state S on the harness image as it is now (shared pointer globals as the
+    previous block left them); -> None (the model does not define this state) | True (as documented) | False (violation recorded)"""
+    if name == 'ptr_flip_bit_address':
+        S = dict(S, q=S['p'] + w + w.bit_length() + 2)   # dbit = w + #w: the data bits of a cell start there
+    E = apply_model(name, S, w, K)
+    if E is None:
+        return None
+    cells = S['cells']
+    vals = {'p': S['p'], 'q': S['q'], 'idx': S['idx'], 'h': S['h'], 'by': S['by'], 'v4': S['v4'],
+            'buf': sum(c << (8 * i) for i, c in enumerate(cells))}
+    exp = {'p': E['p'], 'q': E['q'], 'idx': E['idx'], 'h': E['h'], 'by': E['by'], 'v4': E['v4'],
+           'buf': sum(c << (8 * i) for i, c in enumerate(E['cells']))}
+    # flip words of the buffer cells start at 0 (restore them: a previous ptr_flip toggled them)
+    raw = {h.var_addr['buf'] + 2 * k: 0 for k in range(K + 3)}
+    r = h.step(name, vals, raw=raw)
+    stats['transitions'] += 1
+    problems = []
+    if r['cause'] != 0 or r['exit'] != 'ft':
+        problems.append(('termination', 'falls through', {'cause': r['cause'], 'exit': r.get('exit'), 'err': r.get('err')}))
+    else:
+        got = dict(r['vals'])
+        if got != exp:
+            bad = {k: (exp[k], got[k]) for k in exp if exp[k] != got[k]}
+            problems.append(('values', {k: hex(v[0]) for k, v in bad.items()}, {k: hex(v[1]) for k, v in bad.items()}))
+        raw_exp = {h.var_addr['buf'] + 2 * (k + 1): v for k, v in E['flipw'].items()}
+        for k, v in E['flipw'].items():
+            got_fw = h.word(r['snap'], h.var_addr['buf'] + 2 * (k + 1))
+            if got_fw != v:
+                problems.append((f'flip word of cell {k}', v, got_fw))
+        fd = h.frame_diffs(name, r['snap'], got, extra_allowed=shared, raw_expected=raw_exp)
+        if fd:
+            problems.append(('frame: words outside the pointed cell / destination changed', 'unchanged',
+                             [{'word': d[0], 'was': d[1], 'now': d[2], 'at': d[3]} for d in fd[:4]]))
+        for mp in mirror_problems(h, r['snap'], w):
+            problems.append(mp)
+    if problems:
+        sieve.add({'kind': 'pointer macro differs from its documented effect', 'class': f'hex ptr {name} {problems[0][0]}',
+                   'case': dict({'family': family, 'w': w, 'block': name, 'call': call, 'state': {k: v for k, v in S.items()}}, **(extra_case or {})),
+                   'expected': {p[0]: p[1] for p in problems}, 'observed': {p[0]: p[2] for p in problems},
+                   'summary': f'w={w} {call} {what}: {[p[0] for p in problems]}'})
+        h.restore_all()
+        return False
+    return True
+
+
+def work_hex_pairs(task):
+    """the pointer macros share global pointer registers: every ORDERED PAIR of hex pointer forms executed back to back (the second one starts
+    with the registers exactly as the first one left them), over a few target pairs - each step against the same model and frame."""
+    from fjv.enginecheck import scratch
+    from fjv.stlharness import Harness, BlockSpec
+    _, tier, w, part, nparts = task
+    blocks = hex_blocks(w)
+    specs = [BlockSpec(n, c, ['ft'], None, ()) for n, c in blocks]
+    variables = [('p', w // 4), ('q', w // 4), ('idx', w // 4), ('h', 1), ('by', 2), ('v4', 4), ('buf', K + 3, 8, (0x10000, 5))]
+    h = Harness(w, 'hex', 1, variables, specs, scratch(), tag=f'c08-pairs-{w}-{part}')
+    sieve = Sieve(PROP, MATCHERS)
+    stats = {'transitions': 0, 'states': 0, 'blocks': 0}
+    dw = 2 * w
+    base = h.labels['buf'] + dw
+    shared = shared_words(h, w)
+    pairs = [(a, b) for a in range(len(blocks)) for b in range(len(blocks))]
+    targets = ((0, 5), (5, 0), (2, 2)) if tier != 'thorough' else ((0, 5), (5, 0), (2, 2), (7, 1), (4, 5))
+
+    def state(t, cv, idx):
+        cells = [(17 * k + 3) & 0xFF for k in range(K + 3)]
+        cells[t + 1] = cv
+        return {'p': base + t * dw, 'q': 0x1230, 'idx': idx, 'h': 0x6, 'by': 0x5A, 'v4': 0x5A69, 'cells': cells, 'flipw': {}, 'base': base}
+    for pi, (a, b) in enumerate(pairs):
+        if pi % nparts != part:
+            continue
+        for ta, tb in targets:
+            h.restore_all()
+            (na, ca), (nb, cb) = blocks[a], blocks[b]
+            r1 = hex_step(h, w, na, ca, state(ta, 0xA5, 1 if 'idx' in ca else 0), shared, sieve, stats, 'hexpairs', f'(first of the pair {na}, {nb}) target cell {ta}',
+                          {'pair': [na, nb], 'targets': [ta, tb], 'step': 0})
+            if not r1:
+                continue
+            r2 = hex_step(h, w, nb, cb, state(tb, 0x3C, 1 if 'idx' in cb else 0), shared, sieve, stats, 'hexpairs', f'right after {ca} on cell {ta}: target cell {tb}',
+                          {'pair': [na, nb], 'targets': [ta, tb], 'step': 1})
+            if r2:
+                stats['states'] += 1
+    stats['blocks'] = len(blocks)
+    return stats, sieve.result(), {'w': w, 'pairs': len(pairs), 'targets': list(targets)}
+
+
 def work_hex_ptr(task):
     from fjv.enginecheck import scratch
     from fjv.stlharness import Harness, BlockSpec
@@ -257,45 +350,10 @@ def work_hex_ptr(task):
                         cells[t + 2] = cv ^ 0x5A
                     S = {'p': base + t * dw, 'q': 0x1230, 'idx': idx, 'h': hh, 'by': bb, 'v4': (bb << 8) | (hh << 4) | 0x9,
                          'cells': cells, 'flipw': {}, 'base': base}
-                    E = apply_model(name, S, w, K)
-                    if E is None:
-                        continue
                     key = (name, t, cv, hh, bb, idx)
-                    vals = {'p': S['p'], 'q': S['q'], 'idx': S['idx'], 'h': S['h'], 'by': S['by'], 'v4': S['v4'],
-                            'buf': sum(c << (8 * i) for i, c in enumerate(cells))}
-                    exp = {'p': E['p'], 'q': E['q'], 'idx': E['idx'], 'h': E['h'], 'by': E['by'], 'v4': E['v4'],
-                           'buf': sum(c << (8 * i) for i, c in enumerate(E['cells']))}
-                    # flip words of the buffer cells start at 0 (restore them: a previous ptr_flip toggled them)
-                    raw = {h.var_addr['buf'] + 2 * k: 0 for k in range(K + 3)}
-                    r = h.step(name, vals, raw=raw)
-                    stats['transitions'] += 1
+                    if hex_step(h, w, name, call, S, shared, sieve, stats, 'hexptr', f'target cell {t} cell={cv:#x} h={hh:#x} by={bb:#x} idx={sgnw(idx, w)}') is None:
+                        continue
                     seen_states.add(key)
-                    problems = []
-                    if r['cause'] != 0 or r['exit'] != 'ft':
-                        problems.append(('termination', 'falls through', {'cause': r['cause'], 'exit': r.get('exit'), 'err': r.get('err')}))
-                    else:
-                        got = dict(r['vals'])
-                        if got != exp:
-                            bad = {k: (exp[k], got[k]) for k in exp if exp[k] != got[k]}
-                            problems.append(('values', {k: hex(v[0]) for k, v in bad.items()}, {k: hex(v[1]) for k, v in bad.items()}))
-                        raw_exp = {h.var_addr['buf'] + 2 * (k + 1): v for k, v in E['flipw'].items()}
-                        for k, v in E['flipw'].items():
-                            got_fw = h.word(r['snap'], h.var_addr['buf'] + 2 * (k + 1))
-                            if got_fw != v:
-                                problems.append((f'flip word of cell {k}', v, got_fw))
-                        fd = h.frame_diffs(name, r['snap'], got, extra_allowed=shared, raw_expected=raw_exp)
-                        fd = [d for d in fd]
-                        if fd:
-                            problems.append(('frame: words outside the pointed cell / destination changed', 'unchanged',
-                                             [{'word': d[0], 'was': d[1], 'now': d[2], 'at': d[3]} for d in fd[:4]]))
-                        for mp in mirror_problems(h, r['snap'], w):
-                            problems.append(mp)
-                    if problems:
-                        sieve.add({'kind': 'pointer macro differs from its documented effect', 'class': f'hex ptr {name} {problems[0][0]}',
-                                   'case': {'family': 'hexptr', 'w': w, 'block': name, 'call': call, 'target': t, 'state': {k: v for k, v in S.items()}},
-                                   'expected': {p[0]: p[1] for p in problems}, 'observed': {p[0]: p[2] for p in problems},
-                                   'summary': f'w={w} {call} target cell {t} cell={cv:#x} h={hh:#x} by={bb:#x} idx={sgnw(idx, w)}: {[p[0] for p in problems]}'})
-                        h.restore_all()
     pointer_arithmetic_sweep(h, 'hex', w, blocks, {'p': 0, 'q': 0x1230, 'idx': 0, 'h': 0, 'by': 0, 'v4': 0, 'buf': 0}, sieve, stats, shared)
     stats['states'] = len(seen_states)
     return stats, sieve.result(), {'w': w, 'blocks': [b[0] for b in blocks]}
@@ -690,7 +748,7 @@ def work_calls(task):
 
 
 def work(task):
-    return {'hexptr': work_hex_ptr, 'jump': work_ptr_jump, 'bitptr': work_bit_ptr, 'stack': work_stack, 'calls': work_calls}[task[0]](task)
+    return {'hexptr': work_hex_ptr, 'hexpairs': work_hex_pairs, 'jump': work_ptr_jump, 'bitptr': work_bit_ptr, 'stack': work_stack, 'calls': work_calls}[task[0]](task)
 
 
 MATCHERS = {}
@@ -702,6 +760,8 @@ def make_tasks(tier, only=None):
     for w in widths:
         for p in range(8):
             tasks.append(('hexptr', tier, w, p, 8))
+        for p in range(4):
+            tasks.append(('hexpairs', tier, w, p, 4))
         tasks.append(('jump', tier, w, 'hex'))
         for first in STACK_OPS[:4] + ('sp_inc',):
             tasks.append(('stack', tier, w, first))
